@@ -95,6 +95,12 @@ fn main() {
                 }
             }
         }
+        "merge-extra" => {
+            let label = arg_value(&args, "--label").unwrap_or_else(|| "extra".into());
+            let dir = arg_value(&args, "--dir").unwrap_or_default();
+            let ok: Vec<i32> = arg_value(&args, "--ok-exit").unwrap_or_else(|| "0".into()).split(',').filter_map(|s| s.parse().ok()).collect();
+            std::process::exit(driver::merge_extra(&prop, &label, &dir, &ok));
+        }
         "replay" => {
             let file = args.get(2).cloned().unwrap_or_default();
             std::process::exit(driver::replay(&prop, tier, &file));
